@@ -609,6 +609,37 @@ fn replay_stream_one(rp: &Rp, hay: &[u8]) -> i32 {
                     break 'outer;
                 }
             }
+            // ---- the slice-table entry point (try_stream_replace_all), same writers
+            if fa.is_none() {
+                let table: Vec<Vec<u8>> = (0..rp.pats.len()).map(|i| vec![b'0' + i as u8]).collect();
+                let want_tbl = ac.replace_all_bytes(hay, &table);
+                let nw = if fault { want_tbl.len() + 3 } else { 0 };
+                let wplans: Vec<(Option<usize>, usize)> = [(None, usize::MAX), (None, 1)].into_iter().chain((0..nw).map(|k| (Some(k), usize::MAX))).collect();
+                for (wf, limit) in wplans {
+                    let rdr = Sched { data: hay, pos: 0, sizes: sizes.clone(), idx: 0, calls: 0, fail_at: None, failed: std::rc::Rc::new(std::cell::Cell::new(false)) };
+                    let mut wtr = Rec { out: vec![], calls: 0, fail_at: wf, failed: false, limit };
+                    let r = std::panic::catch_unwind(std::panic::AssertUnwindSafe(|| ac.try_stream_replace_all(rdr, &mut wtr, &table).is_ok()));
+                    match r {
+                        Err(_) => bad.push(format!("try_stream_replace_all panicked (reads {:?}, writer fault {:?})", sizes, wf)),
+                        Ok(ok) => {
+                            if wtr.failed && ok {
+                                bad.push(format!("try_stream_replace_all: writer failure at call {:?} not reported, Ok(()) with output {:?} of {:?} (reads {:?})",
+                                    wf, String::from_utf8_lossy(&wtr.out), String::from_utf8_lossy(&want_tbl), sizes));
+                            }
+                            if !wtr.failed && (!ok || wtr.out != want_tbl) {
+                                bad.push(format!("try_stream_replace_all wrote {:?}, replace_all_bytes gives {:?} (ok={}, reads {:?})",
+                                    String::from_utf8_lossy(&wtr.out), String::from_utf8_lossy(&want_tbl), ok, sizes));
+                            }
+                            if wtr.out.len() > want_tbl.len() || wtr.out[..] != want_tbl[..wtr.out.len()] {
+                                bad.push(format!("try_stream_replace_all: bytes written {:?} are not a prefix of {:?}", String::from_utf8_lossy(&wtr.out), String::from_utf8_lossy(&want_tbl)));
+                            }
+                        }
+                    }
+                    if bad.len() >= 4 {
+                        break 'outer;
+                    }
+                }
+            }
             if bad.len() >= 4 {
                 break 'outer;
             }
